@@ -68,6 +68,11 @@ func c03Specs(tier string, seed int) []c03Spec {
 		}
 	}
 	out = append(out, c03Spec{Kind: "race", Conc: 4}, c03Spec{Kind: "race", Conc: 8})
+	// the same line again and again in fresh sessions (the runtime randomises map iteration per execution), with the
+	// batch-line arguments in every order
+	for _, n := range []string{"A", "B", "C"} {
+		out = append(out, c03Spec{Kind: "repeat", Batch: []string{n}})
+	}
 	// split the heavy explorations (bound >= 2 with 3+ lines) into 8 shards each; heavy ones first so that they start early
 	var heavy, light []c03Spec
 	for _, s := range out {
@@ -89,7 +94,7 @@ func init() {
 		ID:        "C03",
 		Technique: "stateless model checking of the implementation: the real dispatcher and the real runs, with every goroutine start, channel send/receive/select and mutex operation (and a yield at every simulated-day boundary) routed to a controlled cooperative scheduler by a source rewriter, explored depth-first over all interleavings up to a preemption bound with state-key pruning; plus exhaustive line orders in one shared session; auxiliary free-running race-detector pass",
 		Rule: "e3 scenario = (batch of 2-4 lines over plots sharing project files, a project sharing only the parameter folder, a repeated line under another output id, custom crop codes whose run-local numbers collide; concurrency 2-3): every execution must end without deadlock, with every line's daily/yearly/crop/management files byte-identical to that line run alone in a fresh session, an empty error summary and no foreign file; every recorded failing schedule is replayed twice and must reproduce identically; " +
-			"seq scenario = every sequence of 2-3 lines run one after the other in one session (file-pool cache states) against the same references; state = global state key (per-goroutine history hashes incl. received values, lock order and day-end data hashes, pending operations, lock owners); transitions = scheduling decisions",
+			"seq scenario = every sequence of 2-3 lines run one after the other in one session (file-pool cache states) against the same references; repeat scenario = one line with 9 configuration and crop overrides run 30 times in fresh sessions with the arguments in different orders, all results identical; state = global state key (per-goroutine history hashes incl. received values, lock order and day-end data hashes, pending operations, lock owners); transitions = scheduling decisions",
 		Assumptions: []string{"scheduling points: goroutine start, channel operations, select, mutex lock, sync.Map operations, simulated-day boundaries; unlock is not a separate point (critical sections without inner operations are atomic)",
 			"state-key pruning assumes data-race freedom between scheduling points; data races inside one day step are outside a cooperative scheduler's reach and are covered only by the auxiliary race-detector pass (sampling, not deciding)",
 			"the rewriter (engine/rewrite) and the scheduler (engine/vsched) are trusted; constructs they do not model are refused with a harness error"},
@@ -186,6 +191,43 @@ func c03Run(raw json.RawMessage, c *mc.Ctx) {
 			}
 		}
 		c.Outcome("seq-identical")
+	case "repeat":
+		w := buildBatchWorld(root, 45)
+		extra := []string{"c_MAXAMAX=44", "c_TSUM_1=160", "c_TSUM_2=300", "c_KC_3=1.1", "c_PRO_2_1=0.3", "c_PRO_2_2=0.7", "NDeposition=33", "Fertilization=80", "KcFactorBareSoil=0.5"}
+		crop := map[string]string{"A": "PARAM.XWA", "B": "PARAM.XWB", "C": "PARAM.SM"}[sp.Batch[0]]
+		base := strings.Fields(w.Lines[sp.Batch[0]])
+		var first string
+		n := 0
+		permute(append([]string{"CropFile=" + crop}, extra[:4]...), func(perm []string) {
+			if n >= 30 {
+				return
+			}
+			n++
+			args := append(append(append([]string{}, base...), perm...), extra[4:]...)
+			if n%2 == 0 { // reversed tail as well
+				for i, j := len(base), len(args)-1; i < j; i, j = i+1, j-1 {
+					args[i], args[j] = args[j], args[i]
+				}
+			}
+			r := proj.Run(root, append(args, "resultfolder="+filepath.Join(root, "out", "rep")), nil)
+			c.Trace(1)
+			c.Transition(1)
+			c.Eval(1)
+			h := mc.NewHasher().S("repeat").S(sp.Batch[0]).I(n).Sum()
+			c.State(h)
+			c.NonTrivial(h)
+			if !r.Success {
+				c.Violate("run-failed repeat", fmt.Sprintf("line %s with overrides %v failed: %s %s", sp.Batch[0], args[len(base):], r.Err, r.Panic), nil)
+				return
+			}
+			txt := c03AllFiles(r)
+			if first == "" {
+				first = txt
+			} else if txt != first {
+				c.Violate("same-line-different-results", fmt.Sprintf("line %s: repetition %d (arguments %v) differs from the first run of the same line: %s", sp.Batch[0], n, args[len(base):], strings.Replace(c18Diff(first, txt, nil), "edited file gives", "first run gives", 1)), nil)
+			}
+		})
+		c.Outcome("repeat-identical")
 	case "race":
 		bin := os.Getenv(raceEnv)
 		if bin == "" || strings.HasPrefix(bin, "unavailable") {
